@@ -544,7 +544,10 @@ class Model:
             tm = self.modules.get(mod)
             if tm is not None:
                 obj = self.lookup_symbol(tm, sym, _depth + 1)
+            if tm is not None and obj is not None:
+                pass
             elif mod + "." + sym in self.modules:
+                # ``from package import submodule`` (the package's __init__ need not name it)
                 tm2 = self.modules[mod + "." + sym]
                 if rest:
                     return self.lookup_symbol(tm2, rest, _depth + 1)
